@@ -122,6 +122,74 @@ def oracle(ctx, seeds=None):
                 sc = float(np.max(np.abs(r0[k]))) + float(np.max(np.abs(expg[k]))) + 1e-300
                 if not np.all(np.abs(geo[k] - expg[k]) <= 1e-10 * sc):
                     res.fail('nozzle:geometric-eq%d' % k, "geometric source of eq %d: %r, expected -(1/A dA/dx) * flux = %r" % (k, geo[k][:3], expg[k][:3]), rp); break
+    # ---- call histories: one model object discretised on several meshes; one source list reused by several models
+    for i in range(ctx.n(25, 300)):
+        g = gens.gamma(rng)
+        sec = [1.0, float(rng.uniform(-0.05, 0.3)), float(rng.uniform(0, 0.2))]
+        n = int(rng.integers(2, 9))
+        coef = rng.normal(size=(3, 3))
+        subset = [bool(rng.integers(2)) for _ in range(3)]
+        def mk(k):
+            return lambda x, qd, k=k: coef[k, 0] + coef[k, 1] * x + coef[k, 2] * qd[0] * qd[-1]
+        shared = [mk(k) if subset[k] else None for k in range(3)]
+        prim = [10.0 ** rng.uniform(-.3, .3, n), rng.uniform(0.1, 0.5, n), 10.0 ** rng.uniform(-.3, .3, n)]
+        L = float(rng.uniform(0.5, 2))
+        meshes = [dict(kind='uni', n=n, length=L), dict(kind='refined', n=n, length=L, ratio=float(rng.uniform(1.5, 4)), nc1=int(rng.integers(1, n)) if n > 1 else 1),
+                  dict(kind='uni', n=n, length=L, x0=float(rng.uniform(0.2, 1.5)))]
+        order = list(rng.permutation(3))
+        rp = dict(gamma=g, section=sec, n=n, length=L, subset=subset, coef=coef.tolist(), order=[int(o) for o in order])
+        res.case(('history', n, tuple(subset), tuple(int(o) for o in order)))
+        def mesh_of(d):
+            if d['kind'] == 'refined':
+                return impl.mesh.refinedmesh(ncell=d['n'], length=d['length'], ratio=d['ratio'], nratioa=1, nratiob=1)
+            return impl.mesh.unimesh(ncell=d['n'], length=d['length'], x0=d.get('x0', 0.))
+        def rhs_of(mod, msh):
+            disc = impl.modeldisc.fvm(mod, msh, impl.xnum.extrapol1(), numflux='centered', bcL={'type': 'outsup'}, bcR={'type': 'outsup'})
+            Q = mod.prim2cons([np.array(w, dtype=float) for w in prim])
+            return [np.array(x, dtype=float).copy() for x in disc.rhs(impl.field.fdata(mod, msh, [np.array(x, dtype=float) for x in Q]))], Q
+        def run_hist():
+            out = []
+            A = cfg1d.section_fn(sec)
+            # (a) one nozzle object, several meshes in a row
+            noz = impl.euler.nozzle(A, gamma=g)
+            eul = impl.euler.euler1d(gamma=g)
+            for o in order:
+                msh = mesh_of(meshes[o])
+                rn, Q = rhs_of(noz, msh)
+                re_, _ = rhs_of(eul, msh)
+                xc = msh.centers()
+                gterm = (A(msh.xf[1:]) - A(msh.xf[:-1])) / (np.diff(msh.xf) * A(xc))
+                rho, m_, E = Q
+                H = (E + (g - 1) * (E - .5 * m_ ** 2 / rho)) / rho
+                expg = [-gterm * m_, -gterm * m_ ** 2 / rho, -gterm * m_ * H]
+                for k in range(3):
+                    sc = float(np.max(np.abs(rn[k]))) + float(np.max(np.abs(expg[k]))) + 1e-300
+                    if not np.all(np.abs((rn[k] - re_[k]) - expg[k]) <= 1e-10 * sc):
+                        out.append(('nozzle:rediscretised:geometric-eq%d' % k, "same nozzle object discretised again (mesh #%d %r): geometric source of eq %d = %r, expected %r" % (o, meshes[o], k, (rn[k] - re_[k])[:3], expg[k][:3])))
+                        break
+            # (b) one source list given to several models in a row
+            A2 = cfg1d.section_fn([1.0, sec[1] * 0.5 + 0.1, sec[2]])
+            builders = [lambda s: impl.euler.nozzle(A, gamma=g, source=s), lambda s: impl.euler.nozzle(A2, gamma=g, source=s), lambda s: impl.euler.euler1d(gamma=g, source=s)]
+            msh = mesh_of(meshes[1])
+            xc = msh.centers()
+            for o in order:
+                m1 = builders[o](shared)
+                m0 = builders[o](None)
+                r1, Q = rhs_of(m1, msh)
+                r0, _ = rhs_of(m0, msh)
+                for k in range(3):
+                    exp = (coef[k, 0] + coef[k, 1] * xc + coef[k, 2] * Q[0] * Q[-1]) if subset[k] else 0.0 * xc
+                    sc = float(np.max(np.abs(r0[k]))) + float(np.max(np.abs(exp))) + 1e-300
+                    if not np.all(np.abs((r1[k] - r0[k]) - exp) <= 1e-11 * sc):
+                        out.append(('shared-source-list:model%d:source-eq%d:%s' % (o, k, 'given' if subset[k] else 'none'),
+                                    "source list reused by a later model (builder #%d): rhs(with)-rhs(without) on eq %d = %r, source = %r" % (o, k, (r1[k] - r0[k])[:3], np.asarray(exp)[:3])))
+                        break
+            return out
+        ok, out = impl.guarded(run_hist)
+        if not ok:
+            res.fail('history:raised', out, rp); continue
+        for key, desc in out[:2]:
+            res.fail(key, desc, rp)
     return res
 
 
